@@ -12,7 +12,8 @@ import (
 // price expiry, sweeps).
 var MixWide = gen.Mix{"swapIn1": 14, "swapOut1": 8, "swap2hop": 5, "swapByDenom": 4, "joinSingle": 5, "joinAll": 5, "exit": 8, "levOpen": 8, "levClose": 7, "levStop": 2, "levClaim": 1, "levBot": 4,
 	"perpOpen": 10, "perpClose": 8, "perpSL": 2, "perpTP": 2, "perpBot": 5, "bond": 4, "unbond": 4, "donate": 2, "mcClaim": 4,
-	"commitClaimed": 3, "uncommit": 2, "vest": 3, "claimVesting": 3, "cancelVest": 2, "vestNow": 1, "stake": 2, "unstake": 2, "delegate": 2, "undelegate": 2, "estWithdraw": 2}
+	"commitClaimed": 3, "uncommit": 2, "vest": 3, "claimVesting": 3, "cancelVest": 2, "vestNow": 1, "stake": 2, "unstake": 2, "delegate": 2, "undelegate": 2, "estWithdraw": 2,
+	"ordSpot": 7, "ordPerp": 5, "ordUpdate": 2, "ordCancel": 2, "ordExec": 9}
 
 func wideWorld(c *run.Ctx, probes bool) (*chain.World, *Variant) {
 	v := NewVariant(c)
